@@ -367,6 +367,13 @@ func debugRefName(d *ssa.DebugRef) string {
 // instruction index `idx` of block b (idx == -1: block start, only phis of dominators and b's own phis).
 func (f *Frame) lookupName(name string, b *ssa.BasicBlock, idx int) (ssa.Value, bool, bool) {
 	// returns (value, isAddr, found)
+	// A captured variable of a closure unit is read through its cell in the state at hand (so that old(x) and x differ
+	// after an assignment): value DebugRefs are only snapshots taken at individual loads.
+	for _, fv := range f.fn.FreeVars {
+		if fv.Name() == name {
+			return fv, true, true
+		}
+	}
 	// An addressable local (Alloc named after the variable: captured, named result, address taken) is read through its
 	// cell: value DebugRefs of such a variable are only snapshots taken at individual loads and stores.
 	{
